@@ -35,6 +35,7 @@ def run(chk: Check) -> None:
     ix = get_index()
     R = Resolver(ix)
     run_shard(chk, ix)
+    run_meta_ex_after_meta(chk, ix)
 
     # ---------------- R04.1
     r1 = chk.rule("R04.1", "file store publishes atomically: write to a fresh temporary, os.replace onto the final name, OSError => return False; no other writer of cache records", floor=3)
@@ -302,8 +303,15 @@ def run(chk: Check) -> None:
                     skip_tests.append(n)
         for wn in data_w + meta_w + metaex_w:
             nxt = [m for m, lab in wn.succ if lab != "exc"]
+            if wn.kind == "test" and wn.exprs:
+                # a test of the write's own result: only the success outcome has something to commit
+                e0 = wn.exprs[0]
+                neg0 = isinstance(e0, ast.UnaryOp) and isinstance(e0.op, ast.Not) and isinstance(e0.operand, ast.Call)
+                pos0 = isinstance(e0, ast.Call)
+                if neg0 or pos0:
+                    nxt = [m for m, lab in wn.succ if lab == ("false" if neg0 else "true")]
             via = commits + (skip_tests if wn in data_w else [])
-            if g.must_pass(wn, [g.exit], via, labels_excluded=("exc",)) or all(g.must_pass(x, [g.exit], via, labels_excluded=("exc",)) for x in nxt):
+            if (wn.kind != "test" and g.must_pass(wn, [g.exit], via, labels_excluded=("exc",))) or all(g.must_pass(x, [g.exit], via, labels_excluded=("exc",)) for x in nxt):
                 r3.ok(f"{q}: commit follows {norm(wn.exprs[0])[:50]}", f.loc(wn.stmt))
             else:
                 # data write: commit is conditional on meta_tuple is not None (nothing was written otherwise)
@@ -314,6 +322,16 @@ def run(chk: Check) -> None:
             ok = False
             why = ""
             for iv in inval:
+                if iv is m:
+                    # `invalidate(...) and write_cache_meta(...)` in one expression: short-circuit order
+                    for e in ast.walk(iv.stmt):
+                        if isinstance(e, ast.BoolOp) and isinstance(e.op, ast.And):
+                            pos_i = [i for i, v in enumerate(e.values) if any(isinstance(c, ast.Call) and call_name(c) == "invalidate_cache_meta_ex" for c in ast.walk(v)) and not (isinstance(v, ast.UnaryOp) and isinstance(v.op, ast.Not))]
+                            pos_w = [i for i, v in enumerate(e.values) if any(isinstance(c, ast.Call) and call_name(c) == "write_cache_meta" for c in ast.walk(v))]
+                            if pos_i and pos_w and max(pos_i) < min(pos_w):
+                                ok = True
+                                why = "write_cache_meta is the right operand of `invalidate_cache_meta_ex(...) and ...`"
+                    continue
                 if iv.kind == "test":
                     # the meta write must lie on the branch where invalidation succeeded
                     t = iv.exprs[0]
@@ -542,3 +560,63 @@ def run_shard(chk: Check, ix) -> None:
         r5.ok(key, hp.loc(hloop))
     else:
         r5.violation(key, hp.loc(hloop), "the hash may read characters after the first dot of the basename")
+
+
+def run_meta_ex_after_meta(chk: Check, ix) -> None:
+    """R04.7: a meta_ex record is only written next to the meta record it was computed with."""
+    r7 = chk.rule("R04.7", "write_cache_meta reports whether the store accepted the record; where the same function also writes the meta_ex record, that write is unreachable from the failure outcome; where the meta_ex is written later by another phase, the meta file name is handed on only if the meta write succeeded (a failed meta write leaves the *old* meta in place, which must not get the new meta_ex)", floor=3)
+    wcm = ix.func("mypy.build.write_cache_meta")
+    rets = [n for n in ast.walk(wcm.node) if isinstance(n, ast.Return) and isinstance(n.value, ast.Constant)]
+    g0 = CFG(wcm.node)
+    res_locals = {norm(a.targets[0]) for a in ast.walk(wcm.node) if isinstance(a, ast.Assign) and isinstance(a.value, ast.Call) and call_name(a.value) == "write" and isinstance(a.targets[0], ast.Name)}
+    fail_tests = [n for n in g0.nodes if n.kind == "test" and (any(call_name(c) == "write" for c in n.calls()) or norm(n.exprs[0].operand if isinstance(n.exprs[0], ast.UnaryOp) else n.exprs[0]) in res_locals)]
+    ok0 = False
+    if fail_tests and {r.value.value for r in rets} == {True, False}:
+        t = fail_tests[0]
+        neg = isinstance(t.exprs[0], ast.UnaryOp) and isinstance(t.exprs[0].op, ast.Not)
+        fail_succ = [m for m, lab in t.succ if lab == ("true" if neg else "false")]
+        reach = g0.reachable(fail_succ, labels_excluded=("exc",))
+        frets = [n for n in reach if n.kind == "stmt" and isinstance(n.stmt, ast.Return)]
+        ok0 = bool(frets) and all(isinstance(n.stmt.value, ast.Constant) and n.stmt.value.value is False for n in frets)
+    if ok0:
+        r7.ok("write_cache_meta returns False when the store rejected the record and True otherwise", wcm.loc())
+    else:
+        r7.violation("write_cache_meta returns False when the store rejected the record and True otherwise", wcm.loc(), "the caller cannot tell whether the new meta record exists: it will write the new meta_ex next to the old meta")
+    for q in ("mypy.build.process_stale_scc", "mypy.build.process_stale_scc_interface"):
+        f = ix.func(q)
+        g = CFG(f.node, loops_at_least_once=True)
+        metas = [n for n in g.nodes if any(call_name(c) == "write_cache_meta" for c in n.calls())]
+        exs = [n for n in g.nodes if any(call_name(c) == "write_cache_meta_ex" for c in n.calls())]
+        if not metas:
+            raise AnalysisError(f"{q}: write_cache_meta call not found")
+        m = metas[0]
+        if exs:
+            key = f"{q}: write_cache_meta_ex is not reachable after a failed write_cache_meta"
+            okq = False
+            if m.kind == "test":
+                e = m.exprs[0]
+                neg = isinstance(e, ast.UnaryOp) and isinstance(e.op, ast.Not)
+                fail_succ = [x for x, lab in m.succ if lab == ("true" if neg else "false")]
+                # within the same loop iteration: stop at the loop head
+                heads = [n for n in g.nodes if n.kind in ("for-iter", "for-head")]
+                reach = g.reachable(fail_succ, avoiding=heads, labels_excluded=("exc",))
+                okq = not any(x in reach for x in exs)
+            if okq:
+                r7.ok(key, f.loc(m.stmt))
+            else:
+                r7.violation(key, f.loc(exs[0].stmt), "the meta_ex record (cached error lines, indirect dependencies) is written although the meta write may have failed: the old meta, still valid for the old source, then replays the new version's errors once the edit is reverted")
+        else:
+            # the meta file name leaves the function in the result; it must depend on the write result
+            key = f"{q}: the meta file is passed on to the implementation phase only if the meta write succeeded"
+            par = f.module.parents()
+            call = [c for c in ast.walk(f.node) if isinstance(c, ast.Call) and call_name(c) == "write_cache_meta"][0]
+            holder = par.get(call)
+            while isinstance(holder, (ast.BoolOp, ast.UnaryOp)):
+                holder = par.get(holder)
+            flag = norm(holder.targets[0]) if isinstance(holder, ast.Assign) and isinstance(holder.targets[0], ast.Name) else None
+            apps = [c for c in ast.walk(f.node) if isinstance(c, ast.Call) and isinstance(c.func, ast.Attribute) and c.func.attr == "append" and c.args and isinstance(c.args[0], ast.Tuple) and any("meta_file" in norm(e) for e in c.args[0].elts)]
+            conditional = bool(flag) and any(isinstance(e, ast.IfExp) and norm(e.test) == flag and "meta_file" in norm(e.body) and isinstance(e.orelse, ast.Constant) and e.orelse.value is None for c in apps for e in c.args[0].elts)
+            if conditional:
+                r7.ok(key, f.loc(call))
+            else:
+                r7.violation(key, f.loc(call), "the interface phase hands the meta file name to the implementation phase regardless of whether the new meta record was written (or the old meta_ex removed): the implementation phase then writes the new meta_ex next to the old meta")
